@@ -22,6 +22,9 @@ def cases(tier, rng):
         for sc in SCERTS:
             if k.startswith("plain") and sc != "none":
                 continue
+            if k == "wss" and sc == "none":
+                continue      # an https endpoint without a certificate is a configuration error; how the attempt ends (refused at once, or
+                              # the dialer's own time-out) depends on timing inside net/http and is not part of the property
             for ins in (0, 1):
                 for cc in CCERTS:
                     for req in (0, 1):
